@@ -55,7 +55,7 @@ func c22types() []c22val {
 	}
 }
 
-var c22names = []string{"name", "Count", "keywords", "monkey", "values", "valueHistory", "expireAtHint", "createdAtMs", "createdByUser", "updatedAtMs", "updatedByUser", "omitemptyFlag", "deletableThing"}
+var c22names = []string{"name", "Count", "keywords", "monkey", "values", "valueHistory", "expireAtHint", "createdAtMs", "createdByUser", "updatedAtMs", "updatedByUser", "omitemptyFlag", "deletableThing", "Key", "Value", "VALUE", "ExpireAt", "CreatedBy", "updatedat"}
 
 type c22field struct {
 	tag string // hydraide tag ("" = no tag)
@@ -186,7 +186,7 @@ func TestC22(t *testing.T) {
 	r := kit.Start("C22", "exploration")
 	defer r.Finish()
 	cases := c22cases(r.Quick())
-	r.Rule = fmt.Sprintf("%d models built with reflect.StructOf and saved/read through the real Go SDK (CatalogSave+CatalogRead, ProfileSave+ProfileRead) against the in-process server (wire-format client), on an in-memory swamp with the default GOB encoding and on a persistent swamp registered with MessagePack encoding: single-value catalogs (19 field types x zero and non-zero values x omitempty x with/without the five metadata fields), key-only catalogs, map-body catalogs (one body field: %d tag names - plain ones and ones that contain a reserved word as a substring: keywords, monkey, values, valueHistory, expireAtHint, createdAtMs, createdByUser, updatedAtMs, updatedByUser, omitemptyFlag, deletableThing - x 19 types x values x omitempty; two body fields: every ordered pair of tag names), profiles (19 types x values x 5 tag variants). Oracle: the model read back into a fresh value of the same type equals the saved model field by field (nil == empty for slices and maps, times as instants); no error, no panic. Non-trivial = models with at least one non-zero non-key field", len(cases), len(c22names))
+	r.Rule = fmt.Sprintf("%d models built with reflect.StructOf and saved/read through the real Go SDK (CatalogSave+CatalogRead, ProfileSave+ProfileRead) against the in-process server (wire-format client), on an in-memory swamp with the default GOB encoding and on a persistent swamp registered with MessagePack encoding: single-value catalogs (19 field types x zero and non-zero values x omitempty x with/without the five metadata fields), key-only catalogs, map-body catalogs (one body field: %d tag names - plain ones and ones that contain a reserved word as a substring: keywords, monkey, values, valueHistory, expireAtHint, createdAtMs, createdByUser, updatedAtMs, updatedByUser, omitemptyFlag, deletableThing, and reserved words in another letter case: Key, Value, VALUE, ExpireAt, CreatedBy, updatedat - x 19 types x values x omitempty; two body fields: every ordered pair of tag names), profiles (19 types x values x 5 tag variants). Oracle: the model read back into a fresh value of the same type equals the saved model field by field (nil == empty for slices and maps, times as instants); no error, no panic. Non-trivial = models with at least one non-zero non-key field", len(cases), len(c22names))
 	r.Assumptions = []string{"fresh swamp per model (overwrite semantics of omitempty are not part of the round trip)", "struct types come from reflect.StructOf: exported fields F0..Fn, tags as enumerated"}
 	r.Parallel(16, "TestC22", func() {
 		type res struct {
@@ -271,7 +271,7 @@ func TestC22(t *testing.T) {
 				for _, f := range c.fields {
 					h := strings.Split(f.tag, ",")[0]
 					for _, w := range []string{"key", "value", "expireAt", "createdAt", "createdBy", "updatedAt", "updatedBy", "omitempty", "deletable"} {
-						if h != w && strings.Contains(h, w) {
+						if h != w && strings.Contains(strings.ToLower(h), strings.ToLower(w)) {
 							return "tag-" + h
 						}
 					}
